@@ -142,7 +142,8 @@ MONITORS = {"buffer": m_buffer}
 def rand_frame(rng, kind=None):
     df = kind or rng.choice((17, 17, 17, 20, 21, 4, 5, 11))
     n = 112 if df in (17, 20, 21) else 56
-    x = bits.downlink(df, rng.getrandbits(n - 29), n, rng.getrandbits(24), 0)
+    # DF11 replies carry the interrogator code (II/SI) overlaid on the parity; 0 only for spontaneous squitters
+    x = bits.downlink(df, rng.getrandbits(n - 29), n, rng.getrandbits(24), rng.choice((0, rng.randrange(1, 80), rng.randrange(1, 16))))
     return "%0*X" % (n // 4, x), n
 
 
